@@ -420,7 +420,7 @@ class Flow:
             fn = owner.functions.get(f.id) if f.id.startswith("_") else None
             if fn is not None and not fn.args.vararg and not fn.args.kwarg:
                 params = [a.arg for a in fn.args.posonlyargs + fn.args.args]
-                key = ("FN", owner.short, f.id, tuple(pos), tuple(sorted(kw.items())))
+                key = ("FN", owner.short, f.id, tuple(pos), tuple(sorted(kw.items())), u(e))
                 if key in self.memo:
                     return self.memo[key]
                 if key in self.busy or self.depth > self.max_depth:
@@ -434,7 +434,20 @@ class Flow:
                     for p_ in params:
                         if p_ not in fenv:
                             fenv[p_] = self.eval(defaults[p_], obj, m, {}) if p_ in defaults else BOT
-                    v = self.eval(SUMMARIZER.summarize(fn), obj, m, fenv)
+                    # literal arguments (names of members, tuples of names): the summary specialised for them
+                    lits = {}
+                    for p_, a in list(zip(params, e.args)) + [(k.arg, k.value) for k in e.keywords if k.arg in params]:
+                        if (isinstance(a, ast.Constant) and isinstance(a.value, (str, bool, int))) or (isinstance(a, (ast.Tuple, ast.List)) and all(isinstance(y, ast.Constant) and isinstance(y.value, (str, bool, int)) for y in a.elts)):
+                            lits[p_] = a
+                    if any(isinstance(n_, ast.Constant) and isinstance(n_.value, str) for v_ in lits.values() for n_ in ast.walk(v_)):
+                        import copy as _copy
+
+                        from .symex import fold, fold_consts
+
+                        fbody = fold_consts(fold(SUMMARIZER.summarize(fn, {k: _copy.deepcopy(v_) for k, v_ in lits.items()})))
+                    else:
+                        fbody = SUMMARIZER.summarize(fn)
+                    v = self.eval(fbody, obj, m, fenv)
                 finally:
                     self.depth -= 1
                     self.busy.discard(key)
